@@ -171,7 +171,7 @@ func writeDesc(w io.Writer, desc string, indent int, withDesc bool) (err error) 
 			shift = "\n" + shift
 			if _, err = w.Write([]byte(`"""`)); err == nil {
 				if _, err = w.Write([]byte(shift)); err == nil {
-					if _, err = w.Write([]byte(strings.ReplaceAll(desc, "\n", shift))); err == nil {
+					if _, err = w.Write([]byte(strings.ReplaceAll(escapeDesc(desc, true), "\n", shift))); err == nil {
 						if _, err = w.Write([]byte(shift)); err == nil {
 							_, err = w.Write([]byte(`"""`))
 						}
@@ -181,7 +181,7 @@ func writeDesc(w io.Writer, desc string, indent int, withDesc bool) (err error) 
 		}
 	} else if _, err = w.Write([]byte(shift)); err == nil {
 		if _, err = w.Write([]byte{'"'}); err == nil {
-			if _, err = w.Write([]byte(desc)); err == nil {
+			if _, err = w.Write([]byte(escapeDesc(desc, false))); err == nil {
 				_, err = w.Write([]byte{'"', '\n'})
 			}
 		}
@@ -190,6 +190,29 @@ func writeDesc(w io.Writer, desc string, indent int, withDesc bool) (err error) 
 		_, err = w.Write([]byte(shift))
 	}
 	return
+}
+
+// escapeDesc escapes what the parser would not read back as it is written: a
+// backslash always and, in the block form, a quote that is followed by another
+// quote or by a backslash. Three quotes in a row then only ever end the string
+// and a backslash is never taken for the character after a quote.
+func escapeDesc(desc string, block bool) string {
+	if !strings.ContainsAny(desc, "\\\"") {
+		return desc
+	}
+	var b strings.Builder
+	for i := 0; i < len(desc); i++ {
+		c := desc[i]
+		switch {
+		case c == '\\':
+			b.WriteString(`\\`)
+		case c == '"' && block && i+1 < len(desc) && (desc[i+1] == '"' || desc[i+1] == '\\'):
+			b.WriteString(`\"`)
+		default:
+			b.WriteByte(c)
+		}
+	}
+	return b.String()
 }
 
 // Ideally a default value should be specified but since the only current use
